@@ -134,9 +134,10 @@ def _build_table(keys):
         _A('AnatomicRegionSequence', '3', ss),
         _A('PrimaryAnatomicStructureSequence', '3', ss),
         _A('SegmentationAlgorithmIdentificationSequence', '3', ss),
-        _A('CodeValue', '1C', sa), _A('CodingSchemeDesignator', '1C', sa),
-        _A('CodeMeaning', '1', sa),
         _A('AlgorithmFamilyCodeSequence', '1', sa),
+        _A('CodeValue', '1C', sa + ['AlgorithmFamilyCodeSequence']),
+        _A('CodingSchemeDesignator', '1C', sa + ['AlgorithmFamilyCodeSequence']),
+        _A('CodeMeaning', '1', sa + ['AlgorithmFamilyCodeSequence']),
         _A('AlgorithmName', '1', sa), _A('AlgorithmVersion', '1', sa),
         _A('TrackingID', '1C', ss), _A('TrackingUID', '1C', ss),
     ]
